@@ -24,7 +24,9 @@ func verifGuardIso() {
 
 func VerifC15() {
 	rt.SetClockMs(2000000000000)
-	mk := func(res string, thr uint32) *Rule { return &Rule{Resource: res, MetricType: Concurrency, Threshold: thr} }
+	mk := func(res string, thr uint32) *Rule {
+		return &Rule{Resource: res, MetricType: Concurrency, Threshold: thr}
+	}
 	LoadRules([]*Rule{mk("A", 1), mk("A", 2), mk("B", 3)})
 	node := stat.GetOrCreateResourceNode("A", base.ResTypeCommon)
 	for step := 0; step < 2; step++ {
